@@ -71,19 +71,18 @@ DelRef(a, t, b, fwd, bidir) ==
      /\ evt' = [ev |-> "DelRef", a |-> a, t |-> t, b |-> b, fwd |-> fwd, bidir |-> bidir, fail |-> "none",
                 status |-> status, id |-> -1, st |-> P]
 
-\* DeleteNodes, one item (AddressSpace::delete): the node and the nodes it aggregates (HasComponent / HasProperty, followed
-\* only from nodes that exist) are removed; with delete_target_references every reference from or to a visited node goes too,
-\* without it the references stay behind. The status reflects the item's own node: Good when it existed or when references
-\* of it were removed.
-CONSTANT DevFollowDangling      \* the aggregates of a node that does not exist (references left behind) are deleted too
+\* DeleteNodes, one item (AddressSpace::delete): the given id and everything reachable from it over HasComponent / HasProperty
+\* references are visited (references that an earlier delete left behind are followed too); visited nodes are removed; with
+\* delete_target_references every reference from or to a visited id goes too, without it the references stay behind. The
+\* status is Good when anything went away: a visited node, or (with the flag) references of a visited id.
+CONSTANT DevChildResultIgnored      \* only the given id counts for the status, not what was removed below it
 RECURSIVE CloE(_, _)
-CloE(S, k) == IF k = 0 THEN S
-              ELSE CloE(S \cup {r[3] : r \in {x \in refs : x[1] \in (IF DevFollowDangling THEN S ELSE S \cap nodes) /\ x[2] \in {"HC", "HP"}}}, k - 1)
+CloE(S, k) == IF k = 0 THEN S ELSE CloE(S \cup {r[3] : r \in {x \in refs : x[1] \in S /\ x[2] \in {"HC", "HP"}}}, k - 1)
 DelNode(n, tr) ==
-  LET exists == n \in nodes
-      visited == IF exists \/ DevFollowDangling THEN CloE({n}, K + 1) ELSE {n}
-      touched == \E r \in refs : r[1] = n \/ r[3] = n
-      status == IF exists \/ (tr /\ touched) THEN "Good" ELSE "BadNodeIdUnknown"
+  LET visited == CloE({n}, K + 1)
+      touched(v) == \E r \in refs : r[1] = v \/ r[3] = v
+      counts == IF DevChildResultIgnored THEN {n} ELSE visited
+      status == IF \E v \in counts : v \in nodes \/ (tr /\ touched(v)) THEN "Good" ELSE "BadNodeIdUnknown"
   IN /\ nodes' = nodes \ visited
      /\ refs' = IF tr THEN {r \in refs : r[1] \notin visited /\ r[3] \notin visited} ELSE refs
      /\ UNCHANGED <<names, nextAuto>>
